@@ -1593,8 +1593,14 @@ func (c *Conn) readStream(fr *FrameHeader, r *Ctx) (err error) {
 		c.currentWindow -= int32(fr.Len())
 		currentWin := c.currentWindow
 
+		// A response starts with its header block. DATA that arrives before it
+		// used to be collected and, at END_STREAM, delivered as a 200.
+		if !r.gotHeaders {
+			err = NewResetStreamError(ProtocolError, "DATA before the response headers")
+		}
+
 		data := fr.Body().(*Data)
-		if data.Len() != 0 {
+		if data.Len() != 0 && err == nil {
 			res.AppendBody(data.Data())
 
 			// let's send the window update
